@@ -44,25 +44,14 @@ AsMsg(s) == [t |-> "shred", sh |-> s.sh, dlen |-> s.dlen, parent |-> s.parent, s
              last |-> s.last, j |-> s.j]
 NoShred == Shred("regular", 0, FALSE, 0, FALSE, 0)
 
+\* slice data lengths at which the shred size class changes (and the extremes)
 IsBoundary(sh, d, parent) ==
   \/ d \in {0, MaxDlen(sh, parent)}
   \/ (CoderInput(sh, d, parent) % (2 * DataShreds)) \in {0, 2 * DataShreds - 1}
-BoundaryDlens(sh, parent) == {d \in 0..MaxDlen(sh, parent) : IsBoundary(sh, d, parent)}
+\* lengths enumerated with several slice / shred indices
+Rich(sh, d, parent) == IsBoundary(sh, d, parent) \/ d \in SampleDlens \/ d \in AllJDlens
 JSet(sh) == {0, TotalShreds - 1} \cup ({DataOut(sh) - 1, DataOut(sh)} \cap (0..(TotalShreds - 1)))
 Ends == {<<0, FALSE>>, <<MaxSlices - 1, TRUE>>}            \* <<slice index, is_last>>
-
-ShredDescs ==
-  UNION {
-    {Shred(sh, d, parent, e[1], e[2], j) :
-        d \in BoundaryDlens(sh, parent) \cup (SampleDlens \cap (0..MaxDlen(sh, parent))),
-        e \in Ends, j \in JSet(sh)}
-    \cup {Shred(sh, d, parent, 0, FALSE, j) :
-        d \in (AllJDlens \cap (0..MaxDlen(sh, parent))), j \in 0..(TotalShreds - 1)}
-    \cup (IF AllDlens THEN {Shred(sh, d, parent, 0, FALSE, 0) : d \in 0..MaxDlen(sh, parent)} ELSE {})
-    : sh \in Shredders, parent \in BOOLEAN}
-ShredMalDescs ==
-  UNION {{Shred(sh, d, FALSE, e[1], e[2], IF e[2] THEN TotalShreds - 1 ELSE 0) :
-             d \in {0, MaxDlen(sh, FALSE)}, e \in Ends} : sh \in Shredders}
 
 Rreq(k, sv, si, j) == [t |-> "rreq", k |-> k, sv |-> sv, si |-> si, j |-> j]
 RreqDescs == {Rreq(k, sv, e[1], e[2]) : k \in {"last", "root", "shred"}, sv \in {0, MaxSigners - 1},
@@ -70,13 +59,10 @@ RreqDescs == {Rreq(k, sv, e[1], e[2]) : k \in {"last", "root", "shred"}, sv \in 
 
 Rresp(k, rk, si, j, depth, s) ==
   [t |-> "rresp", k |-> k, rk |-> rk, si |-> si, j |-> j, depth |-> depth, s |-> s]
-RrespDescs ==
+RrespSmallDescs ==
   {Rresp(k, k, si, 0, d, NoShred) : k \in {"last", "root"}, si \in {0, MaxSlices - 1},
                                     d \in 0..MaxBlockTreeHeight}
   \cup {Rresp("nack", rk, MaxSlices - 1, TotalShreds - 1, 0, NoShred) : rk \in {"last", "root", "shred"}}
-  \cup UNION {{Rresp("shred", "shred", e[1], j, 0, Shred(sh, d, parent, e[1], e[2], j)) :
-                  d \in BoundaryDlens(sh, parent), e \in Ends, j \in {0, TotalShreds - 1}}
-              : sh \in Shredders, parent \in BOOLEAN}
 RrespMalDescs ==
   {Rresp(k, k, MaxSlices - 1, 0, d, NoShred) : k \in {"last", "root"}, d \in {0, MaxBlockTreeHeight}}
   \cup {Rresp("nack", rk, MaxSlices - 1, TotalShreds - 1, 0, NoShred) : rk \in {"last", "root", "shred"}}
@@ -85,23 +71,21 @@ RrespMalDescs ==
 
 VoteDescs == {[t |-> "vote", k |-> k, sv |-> sv] :
                  k \in {"notar", "nf", "skip", "sf", "final"}, sv \in {0, MaxSigners - 1}}
-TxDescs == {[t |-> "tx", len |-> l] : l \in 0..MaxTxSize}
-TxMalDescs == {[t |-> "tx", len |-> l] : l \in {0, 1, MaxTxSize}}
-
-Base(S) == {[m |-> m, mal |-> NoMal] : m \in S}
-WithMuts(S) == UNION {{[m |-> m, mal |-> mu] : mu \in Muts(m)} : m \in S}
+TxMalLens == {0, 1, MaxTxSize}
 
 -----------------------------------------------------------------------------
 \* which cases are replayed against the implementation
+EmitShred(s) ==
+  /\ Rich(s.sh, s.dlen, s.parent)
+  /\ \/ s.dlen \in SampleDlens \cup AllJDlens
+     \/ ShredBytes(s.sh, s.dlen, s.parent) \in EmitShredBytes
 Emit(cs) ==
   LET m == cs.m IN
   \/ cs.mal # NoMal
   \/ m.t \in {"vote", "rreq", "tx"}
   \/ m.t = "cert" /\ m.n \in FullNs
-  \/ m.t = "shred" /\ \/ m.dlen \in SampleDlens \cup AllJDlens
-                      \/ IsBoundary(m.sh, m.dlen, m.parent)
-                         /\ ShredBytes(m.sh, m.dlen, m.parent) \in EmitShredBytes
-  \/ m.t = "rresp" /\ (m.k = "shred" => ShredBytes(m.s.sh, m.s.dlen, m.s.parent) \in EmitShredBytes)
+  \/ m.t = "shred" /\ EmitShred(m)
+  \/ m.t = "rresp" /\ (m.k = "shred" => EmitShred(m.s))
 
 CaseRec(cs) ==
   LET e == Expect(cs.m, cs.mal) IN
@@ -112,16 +96,33 @@ CaseRec(cs) ==
    kind |-> IF cs.m.t = "shred" THEN (IF cs.m.j < DataOut(cs.m.sh) THEN "data" ELSE "coding") ELSE "-"]
 Out(cs) == Emit(cs) => PrintT(<<"CASE", ToJson(CaseRec(cs))>>)
 
+\* (no large sets are built: TLC enumerates the nested quantifiers)
+BaseCase(m) == c = [m |-> m, mal |-> NoMal] /\ Out(c)
+MutCases(m) == \E mu \in Muts(m) : c = [m |-> m, mal |-> mu] /\ Out(c)
+
+InitShred ==
+  \E sh \in Shredders, parent \in BOOLEAN : \E d \in 0..MaxDlen(sh, parent) :
+    IF Rich(sh, d, parent)
+    THEN \E e \in Ends : \E j \in (IF d \in AllJDlens THEN 0..(TotalShreds - 1) ELSE JSet(sh)) :
+           \/ BaseCase(AsMsg(Shred(sh, d, parent, e[1], e[2], j)))
+           \/ /\ IsBoundary(sh, d, parent) /\ j \in {0, TotalShreds - 1}
+              /\ BaseCase(Rresp("shred", "shred", e[1], j, 0, Shred(sh, d, parent, e[1], e[2], j)))
+    ELSE AllDlens /\ BaseCase(AsMsg(Shred(sh, d, parent, 0, FALSE, 0)))
+InitShredMal ==
+  \E sh \in Shredders : \E d \in {0, MaxDlen(sh, FALSE)} : \E e \in Ends :
+    MutCases(AsMsg(Shred(sh, d, FALSE, e[1], e[2], IF e[2] THEN TotalShreds - 1 ELSE 0)))
+
 Init ==
-  \/ c \in Base(VoteDescs) \cup WithMuts(VoteDescs) /\ Out(c)
-  \/ c \in Base(UNION {CertDescs(n) : n \in CertNs}) /\ Out(c)
-  \/ c \in WithMuts(UNION {CertMalDescs(n) : n \in MalNs}) /\ Out(c)
-  \/ c \in Base({AsMsg(s) : s \in ShredDescs}) /\ Out(c)
-  \/ c \in WithMuts({AsMsg(s) : s \in ShredMalDescs}) /\ Out(c)
-  \/ c \in Base(RreqDescs) \cup WithMuts(RreqDescs) /\ Out(c)
-  \/ c \in Base(RrespDescs) /\ Out(c)
-  \/ c \in WithMuts(RrespMalDescs) /\ Out(c)
-  \/ c \in Base(TxDescs) \cup WithMuts(TxMalDescs) /\ Out(c)
+  \/ \E m \in VoteDescs : BaseCase(m) \/ MutCases(m)
+  \/ \E n \in CertNs : \E m \in CertDescs(n) : BaseCase(m)
+  \/ \E n \in MalNs : \E m \in CertMalDescs(n) : MutCases(m)
+  \/ InitShred
+  \/ InitShredMal
+  \/ \E m \in RreqDescs : BaseCase(m) \/ MutCases(m)
+  \/ \E m \in RrespSmallDescs : BaseCase(m)
+  \/ \E m \in RrespMalDescs : MutCases(m)
+  \/ \E l \in 0..MaxTxSize : BaseCase([t |-> "tx", len |-> l])
+  \/ \E l \in TxMalLens : MutCases([t |-> "tx", len |-> l])
 Next == UNCHANGED c
 
 -----------------------------------------------------------------------------
